@@ -16,6 +16,12 @@ def call_in_child(fn, args=(), timeout=120.0):
         try:
             os.close(r)
             try:
+                import resource
+                lim = int(os.environ.get('VERIF_MEM_GB', '6')) << 30
+                resource.setrlimit(resource.RLIMIT_AS, (lim, lim))
+            except Exception:
+                pass
+            try:
                 val = ('ok', fn(*args))
             except BaseException as e:
                 val = ('crash', ''.join(traceback.format_exception(type(e), e, e.__traceback__))[-4000:])
